@@ -1,4 +1,39 @@
-import OsyrisModel
+/-
+C01  Full load returns every leaf cell exactly once with true geometry, values, units.
+
+What is proved here (for all parameter values, about the reader code regenerated from /repo):
+  * every read of the amr header, of an owned (level, domain) block, of the hydro / grav / rt
+    headers lands on the intended record; stepping over a block advances exactly like reading it;
+  * the units library extracted from config/defaults.py equals the reference library and every
+    label has the dimension of its magnitude's monomial in unit_d, unit_l, unit_t;
+  * the leaf rule: with lmax = levelmax a cell is kept iff it has no son (or sits on levelmax).
+What is *not* yet a theorem: the composition over the whole file walk and the end-to-end
+statement `loadMesh (encode O) = leafRows O`; that step is carried by the correspondence
+(real loader = loader model = Spec leaf rows on every generated output).
+-/
+import OsyrisProofs.Readers
+import OsyrisModel.Generated.UnitsLib
+
 namespace Osyris.C01
-theorem placeholder : True := trivial
+open Osyris Osyris.Readers
+
+/-! The alignment theorems live in `OsyrisProofs/Readers.lean` (namespace `Osyris.Readers`):
+`amr_header_aligned_nb0`, `amr_header_aligned_nbpos`, `amr_own_block_aligned_1/2/3`,
+`amr_stepover_advance`, `hydro_header_aligned`, `grav_header_advance`, `rt_header_advance`,
+`domain_header_advance`, `readVars_spec`, `var_stepover_eq_block`. -/
+
+/-- the units library of the current config/defaults.py is the reference library -/
+theorem C01_units_lib_is_reference : libsAgree Generated.unitsLib Reference.unitsLib = true := by
+  decide +kernel
+
+/-- every label has the dimension of (g/cm^3)^a cm^b s^e for the entry's magnitude d^a l^b t^e -/
+theorem C01_units_lib_consistent : Generated.unitsLib.all Reference.entryConsistent = true := by
+  decide +kernel
+
+/-- leaf rule of `AmrReader.read_variables` when no level cap applies (lmax = levelmax):
+    a cell is kept iff it is not refined, or it sits on the finest level -/
+theorem C01_leaf_rule (son : Rat) (ilevel levelmax : Nat) (h : ilevel + 1 ≤ levelmax) :
+    (!(decide (0 < son) && decide (ilevel + 1 < levelmax))) = (decide (son ≤ 0) || decide (ilevel + 1 = levelmax)) := by
+  by_cases h1 : 0 < son <;> by_cases h2 : ilevel + 1 < levelmax <;> simp [h1, h2, not_lt.mp] <;> omega
+
 end Osyris.C01
